@@ -47,7 +47,7 @@ def invoke(t, entry=".", outcome="ok", writes=(), deletes=(), crash="none", name
 
 
 def corrupt(t, flavour, project_dir=".", fname=None, **kw):
-    d = {"op": "corrupt", "t": fname or t, "flavour": flavour, "project_dir": project_dir, "m": {"t": t}}
+    d = {"op": "corrupt", "t": fname or t, "flavour": flavour, "project_dir": project_dir, "m": {"t": t, "flavour": flavour, "other": kw.pop("other_model", "")}}
     d.update(kw)
     return d
 
@@ -293,7 +293,7 @@ def gen_history(rng, hid, tname, T, nops, faults=True):
             elif fl == "foreign" and len(T["targets"]) > 1:
                 o = rng.choice([x for x in T["targets"] if x != t])
                 if T["state"][o][0] == pd:
-                    ops.append(corrupt(t, "foreign", pd, fname, other=T["state"][o][1]))
+                    ops.append(corrupt(t, "foreign", pd, fname, other=T["state"][o][1], other_model=o))
             else:
                 ops.append(corrupt(t, "lorem", pd, fname))
     # always end with an untouched re-invocation of every target (C03: nothing changed => skipped)
